@@ -1706,6 +1706,11 @@ class KmipEngine(object):
         attribute_name = enums.convert_attribute_tag_to_name(
             payload.new_attribute.attribute.tag
         )
+        if attribute_name not in \
+                self._attribute_policy.get_all_attribute_names():
+            raise exceptions.InvalidField(
+                "The {0} attribute is unsupported.".format(attribute_name)
+            )
         if self._attribute_policy.is_attribute_multivalued(attribute_name):
             raise exceptions.KmipError(
                 status=enums.ResultStatus.OPERATION_FAILED,
@@ -1761,6 +1766,11 @@ class KmipEngine(object):
                 new_attribute.tag
             )
 
+            if attribute_name not in \
+                    self._attribute_policy.get_all_attribute_names():
+                raise exceptions.InvalidField(
+                    "The {0} attribute is unsupported.".format(attribute_name)
+                )
             if not self._attribute_policy.is_attribute_modifiable_by_client(
                 attribute_name
             ):
